@@ -198,7 +198,11 @@ def gen_content(rng, models):
 
 
 # ------------------------------------------------------------------ layouts
-COMMENTS = ["", " a comment", "# ## ;", " End", "Decay x ; Enddecay", " café π →", "\tEnd of file", " 1.0 a b PHSP;", ",;:="]
+COMMENTS = ["", " a comment", "# ## ;", " End", "Decay x ; Enddecay", " café π →", "\tEnd of file", " 1.0 a b PHSP;", ",;:=",
+            # characters at which str.splitlines() — but not the file iterator, and not the grammar's COMMENT — ends a line,
+            # followed by text that would be live input if the comment were cut there
+            " page\x0cDefine zz 1.0", " x\x0bAlias MyA MyB", " \x1cEnd", " y\x85 1.0 a b PHSP;", " z\u2028Decay q", " \u2029Enddecay",
+            "\x1d;", "\x1e, 2.0"]
 
 
 def atoms(stmts):
